@@ -27,7 +27,32 @@ def run_both(ctx, which):
     P = semcheck.gen_programs(ctx.seed * 7919 + 91, n, "strat", max_worlds=200)
     P += common.family_small(ctx.pick(160, 2500), ctx.seed + 9000)
     P += common.cyclic_family(ctx.pick(500, 6000), ctx.seed + 9100, evidence=0.4)
-    jobs = [("pipeline_dump", {"text": progs.render(p), "with_nnf": which == "C10"}) for p in P]
+    texts = [progs.render(p) for p in P]
+    if which == "C10":
+        # labels on NEGATIVE literals, and atoms that are true (or false) in every model without the grounder noticing
+        import random as _r
+        rng = _r.Random(ctx.seed + 1010)
+        extra = []
+        for p in P[:ctx.pick(300, 3000)]:
+            gq = [q for q in p["queries"] if not progs.atom_vars(q)]
+            if not gq:
+                continue
+            q = progs.r_atom(rng.choice(gq))
+            t = progs.render(p)
+            fs = [progs.r_atom(f["atom"]) for f in p["facts"]][:2]
+            lines = ["query(\\+%s)." % q, "nq_0 :- \\+%s." % q, "query(nq_0)."]
+            if len(fs) == 2:
+                kind = rng.random()
+                if kind < 0.4:
+                    lines += ["tt :- %s, %s." % (fs[0], fs[1]), "tt :- \\+%s." % fs[0], "tt :- \\+%s." % fs[1],
+                              "query(tt).", "query(\\+tt).", "ntt :- \\+tt.", "query(ntt)."]
+                elif kind < 0.7:
+                    lines += ["ff :- %s, \\+%s, %s." % (fs[0], fs[0], fs[1]), "ff2 :- %s, ff3." % fs[1], "ff3 :- \\+%s, %s." % (fs[0], fs[0]),
+                              "query(ff2).", "query(\\+ff2)."]
+            extra.append((p, t + "\n".join(lines) + "\n"))
+        P = P + [e[0] for e in extra]
+        texts = texts + [e[1] for e in extra]
+    jobs = [("pipeline_dump", {"text": t, "with_nnf": which == "C10"}) for t in texts]
     res = pl.run_jobs(jobs, nproc=ctx.nproc, timeout=60)
     cases = []
     skipped = {"error": 0, "too_large": 0}
@@ -43,8 +68,8 @@ def run_both(ctx, which):
             elif not r.get("problog_error"):
                 sig = {"clause": "crash", "error": r["error"], "site": r.get("site", ""), "chain": r.get("chain", "")}
                 sig.update(semcheck.triggers(p))
-                ctx.violation(sig, "%s: %s\n%s" % (r["error"], r.get("msg"), progs.render(p)),
-                              {"program": p, "text": progs.render(p)})
+                ctx.violation(sig, "%s: %s\n%s" % (r["error"], r.get("msg"), texts[i]),
+                              {"program": p, "text": texts[i]})
             else:
                 skipped["error"] += 1     # NegativeCycle etc.: no artefacts to validate
             continue
@@ -57,7 +82,7 @@ def run_both(ctx, which):
         ncyc += r["cyclic"]
         if not r["weights_equal"]:
             ctx.violation({"clause": "weights-changed"}, "atom weights differ between DAG / CNF / circuit\n" +
-                          progs.render(p), {"program": p, "text": progs.render(p)})
+                          texts[i], {"program": p, "text": texts[i]})
         cases.append(r)
     send = [{k: v for k, v in c.items() if k in ("id", "src", "dag", "cnf", "nnf", "names", "constraints", "hasnnf")}
             for c in cases]
@@ -69,7 +94,7 @@ def run_both(ctx, which):
         for k in keys:
             if not j[k]:
                 ctx.violation({"clause": k}, "%s is false for the artefacts of\n%s\nsizes=%s" % (
-                    k, progs.render(p), c["sizes"]), {"program": p, "text": progs.render(p)})
+                    k, texts[c["id"]], c["sizes"]), {"program": p, "text": texts[c["id"]]})
     if cases:
         c = cases[0]
         ctx.sample({"program": progs.render(P[c["id"]]), "src": c["src"], "dag": c["dag"], "cnf": c["cnf"],
